@@ -25,6 +25,7 @@ func init() {
 		ruleSlot(c, "C04.S8")
 		ruleV7(c, "C04.S9")
 		ruleF10(c, "C04.S10")
+		ruleT1(c, "C04.S11")
 	}
 }
 
